@@ -125,9 +125,14 @@ func EncodeBurn(m *BurnMessage) ([]byte, error) {
 	return out, nil
 }
 
-// Pad32 left-pads b to 32 bytes (b must be <= 32 bytes).
+// Pad32 left-pads b to 32 bytes; longer inputs keep their first 32 bytes (how values that are not 20-byte addresses
+// are named in a 32-byte field is fixed by no statement: callers treat such content as don't-care).
 func Pad32(b []byte) []byte {
 	out := make([]byte, 32)
+	if len(b) > 32 {
+		copy(out, b[:32])
+		return out
+	}
 	copy(out[32-len(b):], b)
 	return out
 }
